@@ -25,6 +25,8 @@ EXPLANATION = (
     'std::random_device in the same call; the runtime-context stack has thread storage.')
 EXPLANATION += ' C05.R2 also checks the atoms of the table: trace::IsRootSpan / trace::GetSpan return the value stored under their key (behind holds_alternative) or the default.'
 EXPLANATION += ' C05.R6 (forwarding): every inline StartSpan overload of the API Tracer forwards each of its parameters (name, attributes, links, options) to the overload it delegates to; evaluated on a driver unit that instantiates the six overloads.'
+ROUND2_EXPLANATION = (" C05.R2 also: the sampler is consulted on every path to the new span context, receives the resolved parent variable, and the recording Span receives that same variable. Shared C04.R5: the Span constructor feeds identity, parent id and flags from the span's own context / the resolved parent.")
+EXPLANATION += ROUND2_EXPLANATION
 NOT_DECIDED = 'freshness / non-zero ids (the generator has no retry: probabilistic), uniqueness across threads beyond the storage facts.'
 
 P = 'P'   # parent's bit
